@@ -28,11 +28,17 @@ for md in sys.argv[2:]:
                 target = c
                 break
         if not target:
+            # a demo that belongs into the repository root (package of the module itself)
+            stripped = [re.sub(r'^/tmp/w[t2]_C\d+/', '', c).lstrip('/') for c in cands]
+            bare = [c for c in stripped if '/' not in c and c != "demo_test.go"]
+            if bare:
+                target = os.path.basename(bare[0])
+        if not target:
             res["error"] = "no target path found in demo header"
             print(json.dumps(res)); continue
         tests = re.findall(r'^func (Test[A-Za-z0-9_]+)', src, re.M)
         run = "^(" + "|".join(tests) + ")$"
-        pkg = "./" + os.path.dirname(target) + "/"
+        pkg = "./" + os.path.dirname(target) + "/" if os.path.dirname(target) else "./"
         res.update(target=target, tests=tests)
         reset()
         shutil.copy(demo, os.path.join(WT, target))
